@@ -844,11 +844,13 @@ impl<'a> Gen<'a> {
     fn alpha_char(&mut self) -> u32 {
         // 1-, 2-, 3- and 4-byte characters; case pairs, multi-character case images (ß, ŉ, İ, ﬁ),
         // title case (ǅ), digits and white space outside ASCII, NUL. No sigma (see StringOps.lean).
-        const A: [u32; 34] = [
+        const A: [u32; 38] = [
             0x61, 0x5a, 0x30, 0x20, 0x6d, 0x7a, 0x41, 0x0, 0x7f, // 1 byte
             0xe9, 0xc9, 0x3bb, 0x39b, 0xdf, 0x1c5, 0x130, 0x149, 0x663, 0xa0, 0xb5, // 2 bytes
             0x20ac, 0xff21, 0xff41, 0xfb01, 0x2028, 0x1e9e, 0x3042, 0xd7ff, 0xe000, 0xfffd, // 3 bytes
             0x1f436, 0x10400, 0x10428, 0x1d7d8, // 4 bytes
+            // case pairs whose two members have DIFFERENT UTF-8 widths (Ⱥ/ⱥ, Kelvin/k, Ohm/ω; ẞ/ß and İ are above)
+            0x23a, 0x2c65, 0x212a, 0x2126,
         ];
         *self.rng.pick(&A)
     }
@@ -999,7 +1001,33 @@ impl<'a> Gen<'a> {
             "string-cmp" | "string-ci-cmp" => {
                 let pre = if name == "string-cmp" { "string" } else { "string-ci" };
                 let m = self.rng.range(1, 3);
-                let args = (0..m).map(|_| self.strish()).collect();
+                let mut args: Vec<Arg> = (0..m).map(|_| self.strish()).collect();
+                if self.rng.chance(1, 3) {
+                    // two strings that differ only in case (so the -ci predicates must call them equal), built
+                    // character by character; the case counterparts may have another UTF-8 width
+                    let n = self.rng.range(1, 4) as usize;
+                    let cs: Vec<u32> = (0..n).map(|_| self.alpha_char()).collect();
+                    let other: Vec<u32> = cs
+                        .iter()
+                        .map(|c| {
+                            let ch = char::from_u32(*c).unwrap();
+                            let up: Vec<char> = ch.to_uppercase().collect();
+                            let lo: Vec<char> = ch.to_lowercase().collect();
+                            if up.len() == 1 && up[0] != ch {
+                                up[0] as u32
+                            } else if lo.len() == 1 && lo[0] != ch {
+                                lo[0] as u32
+                            } else {
+                                *c
+                            }
+                        })
+                        .collect();
+                    self.push("string", cs.iter().map(|c| Arg::Char(*c)).collect());
+                    let a = self.n() - 1;
+                    self.push("string", other.iter().map(|c| Arg::Char(*c)).collect());
+                    let b = self.n() - 1;
+                    args = vec![Arg::Pool(a), Arg::Pool(b)];
+                }
                 let op = format!("{}{}", pre, self.rng.pick(&CMP));
                 self.push(&op, args)
             }
